@@ -60,12 +60,19 @@ func newActiveSocket(remote string, port int, sessionid string) (DataSocket, err
 		return nil, err
 	}
 
-	tcpConn, err := net.DialTCP("tcp", nil, raddr)
+	// bounded like the passive side: the client gets passiveTimeout to take the connection,
+	// and the connection passiveTimeout for its transfer - a client that accepts it and then
+	// holds still must not pin the handler
+	dialer := net.Dialer{Timeout: passiveTimeout}
+	c, err := dialer.Dial("tcp", raddr.String())
 
 	if err != nil {
 		log.Debug(sessionid, err.Error())
 		return nil, err
 	}
+
+	tcpConn := c.(*net.TCPConn)
+	tcpConn.SetDeadline(time.Now().Add(passiveTimeout))
 
 	socket := new(ftpActiveSocket)
 	socket.conn = tcpConn
